@@ -16,7 +16,7 @@ import random
 import uuid
 from collections import Counter
 
-from .. import driver, liftv as L
+from .. import driver, gencorr as G, liftv as L
 from ..core import Check
 
 EXE = dict(exe="driver_pyval", src="DriverPyVal.lean")
@@ -195,9 +195,36 @@ def extras():
 
 # ------------------------------------------------------------------ main
 
+def exact_universe(tier):
+    """Atoms and inputs outside PyVal's universe: exact floats, big ints, datetimes, UUIDs (the universe of Model/GenVal.lean)."""
+    import datetime as _dt
+    import sys
+    import uuid as _uuid
+
+    d1, d2 = _dt.datetime(2020, 1, 2, 3, 4, 5), _dt.datetime(2020, 1, 2, 3, 4, 5, 1)
+    u1, u2 = _uuid.UUID(int=5), _uuid.UUID(int=2**100)
+    consts = [0.1, 1e-7, -2.5e-7, 2.0000000000000004, 2.0, 1e16, 2e6, 2**70, -(2**70), sys.maxsize + 1, 3, True, d1, d2, u1, u2, "foo", "10", None]
+    specs = [("tt",), ("ff",), ("none",), ("notnone",), ("truthy",), ("falsy",), ("empty",)]
+    for h in ("eq", "ne", "ge", "gt", "le", "lt"):
+        specs += [(h, c) for c in consts]
+    sets = [[0.1, 2**70, "foo"], [d1, u1], [1e-7], [], [True, 2.0], [2**70, float(2**70)]]
+    for h in ("in", "notin", "subset", "rsubset"):
+        specs += [(h, s_) for s_ in sets]
+    specs += [("inst", (k,)) for k in ("bool", "int", "float", "str", "datetime", "uuid", "set", "dict", "list", "tuple")]
+    specs += [("haskey", 0.1), ("haskey", d1), ("haskey", 2**70)]
+    a, b = ("ge", 0.1), ("lt", 2**70)
+    specs += [("and", a, b), ("or", ("inst", ("str",)), a), ("all", a), ("any", ("eq", d1)), ("setof", ("gt", 1e-7)), ("all", ("or", ("inst", ("uuid",)), ("le", d2)))]
+    vals = [0.1, 0.30000000000000004, 0.1 + 0.2, 1e-7, -2.5e-7, 2.0, 2.0000000000000004, 1.9999999999999998, 1e16, 1e16 + 2, 2e6, 2**70, 2**70 + 1, float(2**70),
+            -(2**70), sys.maxsize, sys.maxsize + 1, 3, 0, True, False, None, "foo", "10", "", d1, d2, d1 - _dt.timedelta(days=1), u1, u2,
+            [], [0.1], [0.1, 2**70], (1e-7, 2.0), {0.1, 2**70}, {d1}, {u1, u2}, [d1, d2], {"a": 0.1}, {0.1: d1}, {2**70: 1}, [[0.1], [2**70]], [None, 0.1], ["foo", 0.1]]
+    if tier == "quick":
+        return specs, vals
+    return specs + [("and", ("notnone",), (h, c)) for h in ("ge", "lt") for c in consts[:10]], vals + [[x, y] for x in vals[:12] for y in vals[10:16]]
+
+
 def main(tier):
     chk = Check("C08", tier)
-    chk.prove(checker=(tier == "thorough"), exes=("driver_pyval",))
+    chk.prove(modules=["PyPred.Props.C08", "PyPred.Lemmas.GenEmbed"], checker=(tier == "thorough"), exes=("driver_pyval", "driver_gen"))
     rng = random.Random(chk.seed)
     A = atoms(tier)
     V = values(tier)
@@ -250,6 +277,31 @@ def main(tier):
             preqs.append(f"evt {r2.wire()} (probe 0) {L.val(x)}")
             pexp.append(L.outcome_wire(r) + " ; " + " ".join(f"({i_} {k})" for i_, k in r2.log))
     pout = driver.run(preqs, **EXE)
+    # ---- the exact universe (floats off the 1/2-grid, big ints, datetimes, UUIDs): the generator-side evaluator evalG
+    # (Model/GenVal.lean; proved to agree with atomSem / evalPy on the common universe: Lemmas/GenEmbed.lean) vs the real atoms
+    x_specs, x_vals = exact_universe(tier)
+    xreq, xexp, xmeta = [], [], []
+    for sp in x_specs:
+        pr = G.build(sp)
+        sxp = G.sexp(sp, pr)
+        for x in x_vals:
+            try:
+                vx = G.canon(G.lift_val(x))
+            except G.NotInUniverse:
+                continue
+            xreq.append((sxp, vx))
+            xexp.append(G.call(pr, x))
+            xmeta.append((G.show_spec(sp), repr(x)))
+    xout = G.eval_model(xreq)
+    xdis = []
+    for (ds, dx), o, e in zip(xmeta, xout, xexp):
+        mo = G.model_outcome(o)
+        if mo != e:
+            xdis.append({"predicate": ds, "value": dx, "model": o, "implementation": str(e)})
+        if e is True or (isinstance(e, str) and e.startswith("raised")):
+            chk.nontrivial.add(("exact", ds, dx))
+    chk.add_corr("evalG/exact-universe", len(xreq), xdis, note="off-grid floats, ints beyond 2^63, datetimes, UUIDs, containers of them; driver_gen eval")
+    chk.evaluations += len(xreq)
     chk.add_corr("evalE/property-wrapper", len(preqs), [{"request": q, "model": a, "implementation": b} for q, a, b in zip(preqs, pout, pexp) if a.strip() != b.strip()])
     chk.evaluations += len(preqs)
 
